@@ -583,7 +583,7 @@ class Item:
     def _closure_after(self, pos):
         """text[pos] == '(' of `.adapter(|p| body)`: returns (param, body_start, body_end, close)"""
         close = match_brace(self.m, pos, "(", ")")
-        mo = re.match(r"\(\s*\|\s*([A-Za-z_&][A-Za-z0-9_ &]*|\([A-Za-z0-9_ ,&]*\)\s*)\|\s*", self.text[pos:close])
+        mo = re.match(r"\(\s*(?:move\s+)?\|\s*([A-Za-z_&][A-Za-z0-9_ &]*(?::[^|]*)?|\([A-Za-z0-9_ ,&]*\)\s*)\|\s*", self.text[pos:close])
         if not mo:
             raise Undecided("R3: closure shape not recognised at %s:%d" % (self.relpath, self.line_of(pos)))
         return mo.group(1).strip(), pos + mo.end(), close, close
@@ -946,6 +946,181 @@ class Item:
         self.rewrite(s0, s0, "match ", "R3-hof-apply")
         self.rewrite(be, close + 1, "), None => None }", "R3-hof-apply")
 
+    def inline_hof(self, fn, callee_src, callee_name):
+        """R3 inline-hof (a PRE-processing step, before every other directive of the block): the one call `RECV.NAME(a1, .., an)` in
+        tail position of fn, whose arguments are closures (literals, or locals bound by `let x = |..| ..;` in fn), is replaced by the
+        BODY of the callee -- taken from the repository -- with `self` := &RECV, every call `p(args)` of a closure parameter replaced
+        by the closure's body (its parameter bound by `let`), and every other mention of `p` by the closure literal (beta reduction).
+        A `?` in the callee then returns from fn, which is the same because the call is fn's tail expression.
+        The whole fn is logged with its original text and restored wholesale by `erase`."""
+        k0, _, bo, end, _ = self.fn_span(fn)
+        fstart = self._stmt_start(k0)
+        hits = list(re.finditer(r"\.\s*%s\s*\(" % re.escape(callee_name), self.m[bo:end]))
+        if not hits:
+            raise Undecided("LOST-ANCHOR: R3 inline-hof: `.%s(` not found in fn %s of %s" % (callee_name, fn, self.where()))
+        h = hits[-1]   # one call per pass, the last one first (the directive repeats until none is left)
+        par = bo + h.end() - 1
+        close = match_brace(self.m, par, "(", ")")
+        nxt = close + 1
+        while self.text[nxt].isspace():
+            nxt += 1
+        if self.text[nxt] != "}":
+            raise Undecided("R3 inline-hof: the call is not in tail position at %s:%d" % (self.relpath, self.line_of(par)))
+        c0 = self._chain_start(bo + h.start())
+        recv = self.text[c0:bo + h.start()].strip()
+        # arguments
+        args, dep, last = [], 0, par + 1
+        for j in range(par + 1, close):
+            ch = self.m[j]
+            if ch in "([{":
+                dep += 1
+            elif ch in ")]}":
+                dep -= 1
+            elif ch == "," and dep == 0:
+                args.append(self.text[last:j].strip()); last = j + 1
+        if self.text[last:close].strip():
+            args.append(self.text[last:close].strip())
+        drops, lits = [], []
+        for a in args:
+            if re.match(r"[A-Za-z_]\w*$", a):
+                mo = None
+                for cand in re.finditer(r"\blet\s+%s\s*=\s*(?:move\s+)?\|" % re.escape(a), self.m[bo:end]):
+                    if bo + cand.start() < c0:
+                        mo = cand   # the nearest binding before the call
+                if mo is None:
+                    raise Undecided("R3 inline-hof: argument `%s` is not bound to a closure in fn %s" % (a, fn))
+                ls = bo + mo.start()
+                bar = bo + mo.end() - 1
+                # end of the let statement: the `;` at depth 0
+                j, dep = bar, 0
+                while j < end:
+                    ch = self.m[j]
+                    if ch in "([{":
+                        dep += 1
+                    elif ch in ")]}":
+                        dep -= 1
+                    elif ch == ";" and dep == 0:
+                        break
+                    j += 1
+                lits.append(self.text[bar:j].strip())
+                # the binding goes away with its last use
+                # uses of this binding: later mentions inside the block the `let` sits in (other than new bindings of the name)
+                dep2, q = 0, j + 1
+                while q < end:
+                    if self.m[q] in "{":
+                        dep2 += 1
+                    elif self.m[q] == "}":
+                        if dep2 == 0:
+                            break
+                        dep2 -= 1
+                    q += 1
+                uses = [u for u in re.finditer(r"\b%s\b" % re.escape(a), self.m[j + 1:q])
+                        if not (par <= j + 1 + u.start() <= close) and not re.search(r"\blet\s+(mut\s+)?$", self.m[max(0, j + 1 + u.start() - 12):j + 1 + u.start()])]
+                if not uses:
+                    drops.append((ls, j + 1))
+            else:
+                lits.append(re.sub(r"^move\s+", "", a))
+        # callee
+        cs = callee_src
+        cm = mask(cs)
+        mo = re.search(r"\bfn\s+%s\b" % re.escape(callee_name), cm)
+        jj, ang = mo.end(), 0
+        while cm[jj] != "(" or ang:
+            ang += (cm[jj] == "<") - (cm[jj] == ">" and cm[jj - 1] != "-")
+            jj += 1
+        pclose = match_brace(cm, jj, "(", ")")
+        params = []
+        dep, last = 0, jj + 1
+        for j in range(jj + 1, pclose + 1):
+            ch = cm[j]
+            if ch in "([{<":
+                dep += 1
+            elif ch in ")]}>" and j < pclose and not (ch == ">" and cm[j - 1] == "-"):
+                dep -= 1
+            if (ch == "," and dep == 0) or j == pclose:
+                seg = cs[last:j].strip(); last = j + 1
+                if seg and not re.match(r"&?\s*(mut\s+)?self\b", seg):
+                    params.append(re.sub(r"^mut\s+", "", seg.split(":")[0].strip()))
+        if len(params) != len(lits):
+            raise Undecided("R3 inline-hof: %d closure arguments for %d parameters of %s" % (len(lits), len(params), callee_name))
+        cbo = cm.index("{", pclose)
+        # skip a where clause: the body is the LAST top-level `{` before the matching end
+        wm = re.search(r"\bwhere\b", cm[pclose:cbo])
+        if wm:
+            # find the `{` that opens the body: the first `{` after the where clause at angle depth 0
+            j, ang = pclose + wm.end(), 0
+            while True:
+                ch = cm[j]
+                if ch == "<":
+                    ang += 1
+                elif ch == ">" and cm[j - 1] != "-":
+                    ang -= 1
+                elif ch == "{" and ang == 0:
+                    break
+                j += 1
+            cbo = j
+        cend = match_brace(cm, cbo)
+        body, bm = cs[cbo:cend + 1], cm[cbo:cend + 1]
+        # substitutions, right to left
+        subs = []
+        for mo2 in re.finditer(r"\bself\b", bm):
+            subs.append((mo2.start(), mo2.end(), "(&%s)" % recv))
+        for pn, lit in zip(params, lits):
+            lm = re.match(r"\|([^|]*)\|\s*(.*)$", lit, re.S)
+            if not lm:
+                raise Undecided("R3 inline-hof: `%s` is not a closure literal" % lit[:40])
+            cparam, cbody = lm.group(1).strip(), lm.group(2).strip()
+            for mo2 in re.finditer(r"\b%s\b" % re.escape(pn), bm):
+                j = mo2.end()
+                while bm[j].isspace():
+                    j += 1
+                if bm[j] == "(":
+                    cl = match_brace(bm, j, "(", ")")
+                    arg = body[j + 1:cl].strip()
+                    if cparam:
+                        subs.append((mo2.start(), cl + 1, "{ let %s = %s; %s }" % (cparam, arg, cbody)))
+                    else:
+                        subs.append((mo2.start(), cl + 1, "(%s)" % cbody))
+                elif not re.match(r"\s*:", bm[mo2.end():mo2.end() + 3]):
+                    subs.append((mo2.start(), mo2.end(), lit))
+        # nested substitutions (a call argument that itself contains a parameter call): innermost first is not needed for
+        # the shapes met here; overlapping spans are rejected
+        subs.sort()
+        for a_, b_ in zip(subs, subs[1:]):
+            if a_[1] > b_[0]:
+                # an argument of a parameter call mentions another parameter call: substitute inside the argument text
+                pass
+        out, last = [], 0
+        done_upto = 0
+        for (a_, b_, t_) in subs:
+            if a_ < done_upto:
+                # nested inside the previous substitution: apply textually inside it
+                prev = out.pop()
+                inner_src = body[a_:b_]
+                out.append(prev.replace(inner_src, t_, 1))
+                continue
+            out.append(body[last:a_]); out.append(t_); last = b_; done_upto = b_
+        out.append(body[last:])
+        newbody = "".join(out)
+        # assemble the new fn text
+        pieces, last = [], fstart
+        for (a_, b_) in sorted(drops):
+            pieces.append(self.text[last:a_]); last = b_
+        pieces.append(self.text[last:c0]); pieces.append(newbody); last = close + 1
+        fend = end
+        pieces.append(self.text[last:fend])
+        newfn = "".join(pieces)
+        already = [x for x in getattr(self, "inlined", []) if x[0] == fn]
+        if not already:
+            n = len(self.log)
+            self.log.append({"rule": "R3-inline-hof", "where": "%s:%d" % (self.relpath, self.line_of(c0)),
+                             "before": self.text[fstart:fend], "after": "every call of `%s` replaced by its body (closure arguments substituted)" % callee_name})
+            self.inlined = getattr(self, "inlined", []) + [(fn, n)]
+        if not hasattr(self, "orig_text"):
+            self.orig_text = self.text
+        self.text = self.text[:fstart] + newfn + self.text[fend:]
+        self.m = mask(self.text)
+
     def r3_position_expr(self, fn, k):
         """tail expression `RECV.iter().position(|P| BODY)`  ==>  index loop returning the first index whose BODY holds:
         { let mut vx_pos = None; let mut vx_i = 0; while vx_i < RECV.len() { let P = &RECV[vx_i]; let vx_b = BODY;
@@ -1044,6 +1219,62 @@ class Item:
                 "      let Some(%s) = vx_it.next() else { break; };/*@body*/\n      if let Some(vx_x) = %svx_lifted_%s(%s) { %s.push(vx_x); }\n    }"
                 % (var, ty, recv, pname, prefix, fn, args_, var))
         self.rewrite(s0, semi + 1, loop, "R3-lift-filter-map")
+
+    def r3_lift_find_map(self, fn, k):
+        """expression `ITER.find_map(|P| { BODY })` whose closure has early exits (`?` / `return`) and assigns captured variables  ==>
+        lambda lifting + the definition of Iterator::find_map:
+          fn vx_lifted_<fn>_fm<k>([&self,] P, c1: &mut T1, .., v1: V1, ..) -> R { BODY with every &mut-captured ci read as (*ci) }
+          { let mut vx_fm = ITER; let mut vx_r = None; loop { let Some(P) = vx_fm.next() else { break; };
+            let vx_e = vx_lifted_..(P, &mut c1, .., v1, ..); if vx_e.is_some() { vx_r = vx_e; break; } } vx_r }
+        Captured variables come from `liftparams` (`name: T` = captured by `&mut`, `=name: T` = passed by value / reborrowed)."""
+        if fn not in getattr(self, "lift", {}):
+            raise Undecided("R3 lift-find-map: no liftparams for fn %s" % fn)
+        pdecl, caps, rty, prefix, contract = self.lift[fn]
+        k0, _, bo, end, _ = self.fn_span(fn)
+        hits = list(re.finditer(r"\.\s*find_map\s*\(", self.m[bo:end]))
+        if len(hits) < k:
+            raise Undecided("LOST-ANCHOR: R3 lift-find-map #%d in fn %s of %s" % (k, fn, self.where()))
+        h = hits[k - 1]
+        par = bo + h.end() - 1
+        p, bs, be, close = self._closure_after(par)
+        if self.text[bs] != "{" or self.text[match_brace(self.m, bs) + 1:be].strip():
+            raise Undecided("R3 lift-find-map: closure body is not a block at %s:%d" % (self.relpath, self.line_of(bs)))
+        pname = pdecl.split(":")[0].strip()
+        if re.sub(r"\s+", "", p.split(":")[0]) != re.sub(r"\s+", "", pname):
+            raise Undecided("R3 lift-find-map: closure parameter is `%s`, liftparams says `%s`" % (p, pname))
+        capl = split_top(caps)
+        body = self.text[bs:match_brace(self.m, bs) + 1]
+        mbody = mask(body)
+        for c in capl:
+            if c.startswith("="):
+                continue
+            cn = c.split(":")[0].strip()
+            out, last = [], 0
+            for mm in re.finditer(r"(?<![A-Za-z0-9_\.])%s(?![A-Za-z0-9_])" % re.escape(cn), mbody):
+                out.append(body[last:mm.start()]); out.append("(*%s)" % cn); last = mm.end()
+            out.append(body[last:])
+            body = "".join(out)
+            mbody = mask(body)
+        plist = (["&self"] if prefix == "self." else []) + [pdecl]
+        alist = [pname]
+        for c in capl:
+            if c.startswith("="):
+                plist.append(c[1:].strip()); alist.append(c[1:].split(":")[0].strip())
+            else:
+                plist.append("%s: &mut %s" % (c.split(":")[0].strip(), c.split(":", 1)[1].strip())); alist.append("&mut %s" % c.split(":")[0].strip())
+        lname = "vx_lifted_%s_fm%d" % (fn, k)
+        lifted = "fn %s%s(%s) -> (vx_r: %s)\n/*+vx*/%s/*-vx*/\n%s\n\n  " % (lname, getattr(self, "lift_generics", {}).get(fn, ""), ", ".join(plist), rty, contract, body)
+        wrap = getattr(self, "lift_wrap", {}).get(fn)
+        if wrap:
+            # the enclosing item is a trait impl: the lifted fn goes into an inherent impl block in front of it
+            self.rewrite(0, 0, "%s\n%s}\n" % (wrap, lifted), "R3-lift-find-map")
+        else:
+            self.rewrite(self._stmt_start(k0), self._stmt_start(k0), lifted, "R3-lift-find-map")
+        s0 = self._chain_start(bo + h.start())
+        sfx = "" if k == 1 else str(k)
+        self.rewrite(s0, s0, "{ let mut vx_fm%s = " % sfx, "R3-lift-find-map")
+        self.rewrite(bo + h.start(), close + 1, ";\n  let mut vx_r%s = None;/*@pre*/\n  loop\n  /*@loop*/\n  {\n    let Some(%s) = vx_fm%s.next() else { break; };/*@body*/\n    let vx_e%s = %s%s(%s);\n    if vx_e%s.is_some() { vx_r%s = vx_e%s; break; }/*@tail*/\n  }\n  vx_r%s }"
+                     % (sfx, pname, sfx, sfx, prefix, lname, ", ".join(alist), sfx, sfx, sfx, sfx), "R3-lift-find-map")
 
     def r3_for_index(self, fn, k, mode="ref"):
         """for X in RECV { BODY }  (RECV a slice/Vec/&Vec expression) ==> index while-loop;
@@ -1288,12 +1519,27 @@ class Item:
         return out
 
 
+def split_top(text, sep=","):
+    """split at separators that are not inside <>, (), [] or {}"""
+    out, dep, last = [], 0, 0
+    for i, ch in enumerate(text):
+        if ch in "<([{":
+            dep += 1
+        elif ch in ">)]}" and not (ch == ">" and i > 0 and text[i - 1] == "-"):
+            dep -= 1
+        elif ch == sep and dep == 0:
+            out.append(text[last:i]); last = i + 1
+    out.append(text[last:])
+    return [x.strip() for x in out if x.strip()]
+
+
 def erase(generated, logs):
     """inverse of weaving: strip ghost spans, restore logged originals"""
-    s = re.sub(r"/\*\+vx\*/.*?/\*-vx\*/", "", generated, flags=re.S)
-
     def back(mo):
         return logs[int(mo.group(1))]["before"]
+    # an inlined function (R3 inline-hof) is restored wholesale first: everything woven inside it goes with it
+    generated = re.sub(r"/\*\+vxI:(\d+)\*/.*?/\*-vxI\*/", back, generated, flags=re.S)
+    s = re.sub(r"/\*\+vx\*/.*?/\*-vx\*/", "", generated, flags=re.S)
     s = re.sub(r"/\*\+vxR:(\d+)\*/.*?/\*-vxR\*/", back, s, flags=re.S)
     return s
 
@@ -1539,6 +1785,30 @@ def build_unit(unit_path, repo=REPO):
             elif name == "hofnames":
                 it.hof_names = getattr(it, "hof_names", {})
                 it.hof_names[args[0]] = [x.strip() for x in args[1].split(",")]
+            elif name == "inlinehof":
+                # inlinehof <fn> <callee relpath> :: <locators of the callee fn>   (must precede the other directives of the block)
+                if it.edits:
+                    raise Undecided("inlinehof must be the first directive of its block")
+                rel2, _, loc2 = " ".join(args[1:]).partition("::")
+                locs2 = [l.strip() for l in loc2.split("::") if l.strip()]
+                fixed2 = []
+                for l in locs2:
+                    if fixed2 and not re.match(r"(fn|struct|enum|trait|impl|type|const|mod)\b", l):
+                        fixed2[-1] += "::" + l
+                    else:
+                        fixed2.append(l)
+                src2 = open(os.path.join(repo, rel2.strip())).read()
+                s2, e2 = locate(src2, mask(src2), fixed2)
+                cname = re.match(r"fn\s+(\w+)", fixed2[-1]).group(1)
+                for _pass in range(6):
+                    it.inline_hof(args[0], src2[s2:e2], cname)
+                    k0_, _, bo_, end_, _ = it.fn_span(args[0])
+                    if not re.search(r"\.\s*%s\s*\(" % re.escape(cname), it.m[bo_:end_]):
+                        break
+            elif name == "liftwrap":
+                # liftwrap <fn> "<impl header {>": lifted fns of fn are emitted in front of the item inside this inherent impl block
+                it.lift_wrap = getattr(it, "lift_wrap", {})
+                it.lift_wrap[args[0]] = args[1]
             elif name == "liftR4":
                 # liftR4 <fn> "<old>" "<new>": an R4 redirection applied inside the closure body that lift-filter-map lifts
                 it.lift_r4 = getattr(it, "lift_r4", {})
@@ -1618,11 +1888,15 @@ def build_unit(unit_path, repo=REPO):
                 it.d_drop(args[0])
             else:
                 raise Undecided("unknown directive %s in %s" % (name, unit_path))
+        for (fn_, n_) in getattr(it, "inlined", []):
+            k0_, _, _, end_, _ = it.fn_span(fn_)
+            it.add(it._stmt_start(k0_), it._stmt_start(k0_), "/*+vxI:%d*/" % n_, "ghost-attr")
+            it.add(end_, end_, "/*-vxI*/", "rewrite-raw")
         parts = it.render()
         text = "".join(p[1] for p in parts).replace("/*@loop*/", "").replace("/*@body*/", "").replace("/*@pre*/", "")
         # erasure check
         back = erase(text, it.log)
-        if tokens_keep_strings(back) != tokens_keep_strings(it.text):
+        if tokens_keep_strings(back) != tokens_keep_strings(getattr(it, "orig_text", it.text)):
             raise Undecided("ERASURE-MISMATCH in %s" % it.where())
         for (old, new) in renames:
             text = re.sub(r"\b%s\b" % re.escape(old), new, text)
